@@ -74,7 +74,8 @@ fn run(ops: &[Op], rng: &mut Rng) -> Option<String> {
                 let lt = m.term(c - 1).unwrap();
                 s.wl().compact(c).unwrap();
                 let keep: Vec<Entry> = m.ents[(c - m.first()) as usize..].to_vec();
-                if keep.is_empty() { m.si = c - 1; m.st = lt; } m.ents = keep; }
+                // the boundary (index, term) before the new first index is retained (Storage::term; fix 7cb0ad5)
+                m.si = c - 1; m.st = lt; m.ents = keep; }
             Op::Snap(i, t) => { let mut sn = Snapshot::default(); sn.mut_metadata().index = *i; sn.mut_metadata().term = *t; let mut c2 = ConfState::default(); c2.voters = vec![1, 2, 3, 4]; sn.mut_metadata().set_conf_state(c2);
                 let r = s.wl().apply_snapshot(sn);
                 if m.first() > *i { if r.is_ok() { return Some(format!("op #{} {:?}: out-of-date snapshot accepted (first {})", k, op, m.first())); } }
